@@ -360,15 +360,80 @@ package interpreter
 //@ ensures [For.bodystop] case *ast.ForStmt: evN() > fb && (evN()-1-fb) % fp == 1 ==> (sigT(evN()-1) == 1 ==> result1.Type == 0) && (sigT(evN()-1) == 3 ==> result1 == evSig(evN()-1)) && ((sigT(evN()-1) == 0 || sigT(evN()-1) == 2) ==> postFlag(evN()-1) && result1.Type == 0) [C05,C04,C06]
 //@ ensures [For.incrstop] case *ast.ForStmt: evN() > fb && (evN()-1-fb) % fp == 2 ==> sigT(evN()-1) != 0 && result1 == evSig(evN()-1) [C05,C04]
 
+//@ ensures [PropAccess.order] case *ast.PropertyAccess: evN() == 1 && evalAt(0, pa.Object, env, isRepl) && entryIsPre(0) [C14,C12]
+//@ ensures [PropAccess.signal] case *ast.PropertyAccess: sigT(0) != 0 ==> retSig(0, result1) [C04,C05]
+//@ ensures [PropAccess.notobject] case *ast.PropertyAccess: live(0) && !isObj(evVal(0)) ==> result1.Type == 0 && errAfter(0, pa.Line) [C12,C06]
+//@ ensures [PropAccess.missing] case *ast.PropertyAccess: live(0) && isObj(evVal(0)) && !sel(sel(postMD(0), obj(evVal(0))), pa.Property.Lexeme) ==> result1.Type == 0 && errAfter(0, pa.Line) [C12,C06]
+//@ ensures [PropAccess.value] case *ast.PropertyAccess: live(0) && isObj(evVal(0)) && sel(sel(postMD(0), obj(evVal(0))), pa.Property.Lexeme) ==> retPlain(0, result1) && result0 == sel(sel(postMV(0), obj(evVal(0))), pa.Property.Lexeme) [C12]
+
+//@ ensures [PropAssign.order] case *ast.PropertyAssignment: evN() >= 1 && evalAt(0, pas.Object, env, isRepl) && entryIsPre(0) && (live(0) && isObj(evVal(0)) ==> evN() == 2 && evalAt(1, pas.Value, env, isRepl) && follows(1)) [C14,C12]
+//@ ensures [PropAssign.signal] case *ast.PropertyAssignment: (sigT(0) != 0 ==> retSig(0, result1)) && (live(0) && isObj(evVal(0)) && sigT(1) != 0 ==> retSig(1, result1)) [C04,C05]
+//@ ensures [PropAssign.notobject] case *ast.PropertyAssignment: live(0) && !isObj(evVal(0)) ==> evN() == 1 && result1.Type == 0 && errAfter(0, pas.Line) [C12,C06]
+//@ ensures [PropAssign.store] case *ast.PropertyAssignment: live(0) && isObj(evVal(0)) && live(1) ==> result1.Type == 0 && result0 == evVal(1) && curMV() == mvDefine(postMV(1), obj(evVal(0)), pas.Property.Lexeme, evVal(1)) && curMD() == mdDefine(postMD(1), obj(evVal(0)), pas.Property.Lexeme) && curMC() == mcDefine(postMC(1), postMD(1), obj(evVal(0)), pas.Property.Lexeme) && curEV() == postEV(1) && stdoutN == postOut(1) && stderrN == postErr(1) && !utils.HadRuntimeError [C12]
+
+//@ let aidx = int(intOf(num(evVal(1))))
+//@ ensures [ArrAccess.order] case *ast.ArrayAccess: evN() >= 1 && evalAt(0, aa.Array, env, isRepl) && entryIsPre(0) && (live(0) ==> evN() == 2 && evalAt(1, aa.Index, env, isRepl) && follows(1)) [C14,C11]
+//@ ensures [ArrAccess.signal] case *ast.ArrayAccess: (sigT(0) != 0 ==> retSig(0, result1)) && (live(0) && sigT(1) != 0 ==> retSig(1, result1)) [C04,C05]
+//@ ensures [ArrAccess.notarray] case *ast.ArrayAccess: live(0) && live(1) && !isArr(evVal(0)) ==> result1.Type == 0 && errAfter(1, aa.Line) [C11,C06]
+//@ ensures [ArrAccess.badindex] case *ast.ArrayAccess: live(0) && live(1) && isArr(evVal(0)) && ((!isNum(evVal(1)) && !isStr(evVal(1))) || (isNum(evVal(1)) && !(intOK(num(evVal(1))) && 0 <= aidx && aidx < len(arr(evVal(0)))))) ==> result1.Type == 0 && errAfter(1, aa.Line) [C11,C06]
+//@ ensures [ArrAccess.value] case *ast.ArrayAccess: live(0) && live(1) && isArr(evVal(0)) && isNum(evVal(1)) && intOK(num(evVal(1))) && 0 <= aidx && aidx < len(arr(evVal(0))) ==> retPlain(1, result1) && result0 == sel(sel(postEV(1), ref(arr(evVal(0)))), off(arr(evVal(0))) + aidx) [C11]
+
+//@ ensures [ArrAssign.order] case *ast.ArrayAssignment: evN() >= 1 && evalAt(0, aas.Array, env, isRepl) && entryIsPre(0) && (live(0) ==> evN() >= 2 && evalAt(1, aas.Index, env, isRepl) && follows(1)) && (live(0) && live(1) ==> evN() == 3 && evalAt(2, aas.Value, env, isRepl) && follows(2)) [C14,C11]
+//@ ensures [ArrAssign.signal] case *ast.ArrayAssignment: (sigT(0) != 0 ==> retSig(0, result1)) && (live(0) && sigT(1) != 0 ==> retSig(1, result1)) && (live(0) && live(1) && sigT(2) != 0 ==> retSig(2, result1)) [C04,C05]
+//@ ensures [ArrAssign.notarray] case *ast.ArrayAssignment: live(0) && live(1) && live(2) && !isArr(evVal(0)) ==> result1.Type == 0 && errAfter(2, aas.Line) [C11,C06]
+//@ ensures [ArrAssign.badindex] case *ast.ArrayAssignment: live(0) && live(1) && live(2) && isArr(evVal(0)) && ((!isNum(evVal(1)) && !isStr(evVal(1))) || (isNum(evVal(1)) && !(intOK(num(evVal(1))) && 0 <= aidx && aidx < len(arr(evVal(0)))))) ==> result1.Type == 0 && errAfter(2, aas.Line) [C11,C06]
+//@ ensures [ArrAssign.store] case *ast.ArrayAssignment: live(0) && live(1) && live(2) && isArr(evVal(0)) && isNum(evVal(1)) && intOK(num(evVal(1))) && 0 <= aidx && aidx < len(arr(evVal(0))) ==> result1.Type == 0 && result0 == evVal(2) && curEV() == store(postEV(2), ref(arr(evVal(0))), store(sel(postEV(2), ref(arr(evVal(0)))), off(arr(evVal(0))) + aidx, evVal(2))) && curMD() == postMD(2) && curMV() == postMV(2) && curMC() == postMC(2) && stdoutN == postOut(2) && stderrN == postErr(2) && !utils.HadRuntimeError [C11]
+
+// (the element list is private to the invocation until it is returned: the array heap is left out of the glue between events)
+//@ ensures [ArrLit.events] case *ast.ArrayLiteral: evN() <= len(al.Elements) && (evN() > 0 ==> stateIsPostX(evN()-1)) && forall(k, 0, evN(), evalAt(k, al.Elements[k], env, isRepl)) && forall(k, 1, evN(), followsX(k)) && forall(k, 0, evN()-1, sigT(k) == 0) [C14,C11]
+//@ ensures [ArrLit.signal] case *ast.ArrayLiteral: evN() > 0 && sigT(evN()-1) != 0 ==> result1 == evSig(evN()-1) [C04,C05]
+//@ ensures [ArrLit.value] case *ast.ArrayLiteral: (evN() == 0 || sigT(evN()-1) == 0) ==> evN() == len(al.Elements) && result1.Type == 0 && isArr(result0) && len(arr(result0)) == len(al.Elements) && !old(arrAllocated(now(ref(arr(result0))))) [C11]
+
+// call: callee, then the arguments left to right, then (only with no error pending) the invocation
+//@ let cn = len(cl.Arguments)
+//@ ensures [Call.callee] case *ast.Call: evN() >= 1 && evalAt(0, cl.Callee, env, isRepl) && entryIsPre(0) && (sigT(0) != 0 ==> retSig(0, result1)) [C14,C04]
+//@ ensures [Call.notcallable] case *ast.Call: live(0) && !callable(evVal(0)) ==> evN() == 1 && result1.Type == 0 && errAfter(0, cl.Paren.Line) [C04,C06]
+//@ ensures [Call.arity] case *ast.Call: live(0) && callable(evVal(0)) && arityOf(evVal(0)) != -1 && cn != arityOf(evVal(0)) ==> evN() == 1 && result1.Type == 0 && errAfter(0, cl.Paren.Line) [C04,C17,C06]
+//@ ensures [Call.args] case *ast.Call: sigT(0) == 0 && callable(evVal(0)) && (arityOf(evVal(0)) == -1 || cn == arityOf(evVal(0))) ==> evN() <= cn+2 && forall(k, 1, evN(), k <= cn ==> evalAt(k, cl.Arguments[k-1], env, isRepl) && followsX(k)) && forall(k, 1, evN()-1, k <= cn ==> sigT(k) == 0) [C14,C04]
+//@ ensures [Call.argsignal] case *ast.Call: sigT(0) == 0 && evN() >= 2 && evN() <= cn+1 && sigT(evN()-1) != 0 ==> result1 == evSig(evN()-1) && stateIsPostX(evN()-1) [C04,C05]
+//@ ensures [Call.invoke] case *ast.Call: evN() == cn+2 ==> invokeAt(cn+1, evVal(0)) && len(evArgs(cn+1)) == cn && followsX(cn+1) && !preFlag(cn+1) && (evErr(cn+1) == nil ==> result0 == evVal(cn+1) && result1.Type == 0 && stateIsPost(cn+1)) && (evErr(cn+1) != nil ==> result1.Type == 0 && errAfter(cn+1, cl.Paren.Line)) [C04,C06,C17]
+//@ ensures [Call.complete] case *ast.Call: live(0) && callable(evVal(0)) && (arityOf(evVal(0)) == -1 || cn == arityOf(evVal(0))) && forall(k, 1, cn+1, live(k)) ==> evN() == cn+2 [C04,C14]
+
+// function declaration: a new function value closing over the declaring scope (or a fresh child of it) is bound in the current scope
+//@ let fnv = sel(sel(curMV(), envTable(env)), fs.Name.Lexeme)
+//@ ensures [FnDecl.value] case *ast.FunctionStmt: evN() == 0 && result1.Type == 0 && isUserFn(fnv) && fnv.(*Function).Declaration == fs && !old(fnAllocated(now(fnRef(fnv)))) [C04]
+//@ ensures [FnDecl.closure] case *ast.FunctionStmt: fnv.(*Function).Closure == env || (!old(envAllocated(now(fnv.(*Function).Closure))) && envParent(fnv.(*Function).Closure) == env && !old(mapAllocated(now(envTable(fnv.(*Function).Closure)))) && forall(k, Str, !envHere(fnv.(*Function).Closure, k))) [C04,C03]
+//@ ensures [FnDecl.bind] case *ast.FunctionStmt: sel(curMD(), envTable(env)) == store(sel(old(curMD()), envTable(env)), fs.Name.Lexeme, true) && forall(k, Str, k != fs.Name.Lexeme ==> sel(sel(curMV(), envTable(env)), k) == sel(sel(old(curMV()), envTable(env)), k)) [C04,C03]
+//@ ensures [FnDecl.frame] case *ast.FunctionStmt: forall(r, Int, old(mapAllocated(r)) && r != envTable(env) ==> sel(curMD(), r) == sel(old(curMD()), r) && sel(curMV(), r) == sel(old(curMV()), r)) && curEV() == old(curEV()) && stdoutN == old(stdoutN) && stderrN == old(stderrN) && utils.HadRuntimeError == old(utils.HadRuntimeError) [C04,C03]
+
+// var a = .., b = ..: the declarations one after the other (each on a private copy of its node)
+//@ ensures [VarList.events] case *ast.VarListStmt: evN() <= len(vl.Declarations) && (evN() > 0 ==> entryIsPre(0) && stateIsPost(evN()-1)) && forall(k, 0, evN(), evKind(k) == 1 && evEnv(k) == env && evRepl(k) == isRepl && isVarStmt(evChild(k)) && evChild(k).(*ast.VarStmt).Name == vl.Declarations[k].Name && evChild(k).(*ast.VarStmt).Initializer == vl.Declarations[k].Initializer && evChild(k).(*ast.VarStmt).Line == vl.Declarations[k].Line) && forall(k, 1, evN(), follows(k)) && forall(k, 0, evN()-1, live(k)) [C03,C14]
+//@ ensures [VarList.last] case *ast.VarListStmt: evN() > 0 ==> (sigT(evN()-1) != 0 ==> result1 == evSig(evN()-1)) && (sigT(evN()-1) == 0 ==> result1.Type == 0) [C04,C05]
+//@ ensures [VarList.complete] case *ast.VarListStmt: evN() < len(vl.Declarations) ==> evN() > 0 && !live(evN()-1) [C03,C06]
+
 //@ loop 1:
 //@   invariant [flagmono] old(utils.HadRuntimeError) ==> utils.HadRuntimeError
 //@ loop 2:
 //@   invariant [flagmono] old(utils.HadRuntimeError) ==> utils.HadRuntimeError
+//@   invariant [log] evN() == iter && len(elements) == iter
+//@   invariant [private] !old(arrAllocated(now(ref(elements))))
+//@   invariant [events] forall(k, 0, iter, evalAt(k, al.Elements[k], env, isRepl) && sigT(k) == 0)
+//@   invariant [chain] forall(k, 1, iter, followsX(k))
+//@   invariant [now] iter > 0 ==> stateIsPostX(iter-1)
 //@ loop 3:
 //@   invariant [flagmono] old(utils.HadRuntimeError) ==> utils.HadRuntimeError
-//@   invariant [nargs] len(arguments) == iter
+//@   invariant [nargs] len(arguments) == iter && evN() == iter+1
+//@   invariant [callee] evalAt(0, cl.Callee, env, isRepl) && entryIsPre(0) && sigT(0) == 0 && callable(evVal(0)) && callee == evVal(0) && (arityOf(evVal(0)) == -1 || cn == arityOf(evVal(0)))
+//@   invariant [events] forall(k, 1, iter+1, evalAt(k, cl.Arguments[k-1], env, isRepl) && sigT(k) == 0 && followsX(k))
+//@   invariant [now] stateIsPostX(iter)
 //@ loop 4:
 //@   invariant [flagmono] old(utils.HadRuntimeError) ==> utils.HadRuntimeError
+//@   invariant [log] evN() == iter
+//@   invariant [events] forall(k, 0, iter, evKind(k) == 1 && evEnv(k) == env && evRepl(k) == isRepl && isVarStmt(evChild(k)) && evChild(k).(*ast.VarStmt).Name == vl.Declarations[k].Name && evChild(k).(*ast.VarStmt).Initializer == vl.Declarations[k].Initializer && evChild(k).(*ast.VarStmt).Line == vl.Declarations[k].Line && live(k))
+//@   invariant [nodes] forall(k, 0, iter, varStmtAllocated(vpref(evChild(k))))
+//@   invariant [chain] forall(k, 1, iter, follows(k))
+//@   invariant [first] iter > 0 ==> entryIsPre(0)
+//@   invariant [now] (iter > 0 ==> stateIsPost(iter-1)) && (iter == 0 ==> unchanged())
 //@ loop 5:
 //@   invariant [flagmono] old(utils.HadRuntimeError) ==> utils.HadRuntimeError
 //@   invariant [log] evN() == iter
